@@ -591,3 +591,4 @@ func controlsC01(cp *Prog, r *Report) {
 		ruleBudgetGrow(cp, cr, "grow", "Buf", "Info", "maxLen", "outputGlyphIndex", "replaceGlyphs", 6)
 	}, "(*grow.Buf).multiplyBad/loop over seq", "(*grow.Buf).insertBad/replaceGlyphs", "(*grow.Buf).enlargeBad/append(make)")
 }
+
